@@ -124,6 +124,11 @@ def w_solve(ctx, rng, idx):
             if isinstance(bb, tt.TT):
                 b = bb
                 okind += '/graded_solution'
+    if gk != 'maximal' and rng.random() < 0.12 and isinstance(b, tt.TT) and list(b.ranks) == gen.feasible_ranks(dims, [1] * len(dims), list(b.ranks)) and \
+            bool(np.iscomplexobj(b.cores[0])) == bool(cplx):
+        # the right-hand side itself serves as initial guess - ONE object in two argument positions (a common way to start: x0 = b)
+        g = b
+        gk = 'is_the_right_hand_side'
     solver = ['solve', 'lu'][int(rng.integers(0, 2))]
     name = 'mals' if use_mals else 'als'
     fn = sle.mals if use_mals else sle.als
